@@ -81,6 +81,7 @@ func TestCheck(t *testing.T) {
 	r.Require("aggsigdb_store_events", int64(n)*3)
 	r.Require("nontrivial_cases", int64(n)*3/10)
 	r.Require("cases_with_broadcast", int64(n)/2)
+	r.Require("threshold_triggers_with_2plus_failing_validators", int64(n)/10)
 
 	var sampled atomic.Int32
 	r.Cases(n, par, func(c *kit.Case) {
@@ -286,6 +287,8 @@ func (w *world) finish(replayed int, sampled *atomic.Int32) {
 	r.Count("partials/accepted_from_byzantine", int64(m.acceptedByz))
 	r.Count("partials/equivocation_refused_by_parsigdb", int64(m.equivocations))
 	r.Count("vc/submissions_accepted", int64(m.vcSubmitted))
+	r.Count("threshold_triggers_with_1_failing_validator", int64(m.failing1))
+	r.Count("threshold_triggers_with_2plus_failing_validators", int64(m.failing2))
 	r.Count("objects_whose_slot_differs_from_duty_slot", int64(m.templateOdd))
 	for k, v := range m.rejected {
 		r.Count("partials/rejected_by/"+k, int64(v))
